@@ -31,7 +31,7 @@ RULE = ('cases: wavefronts of shape 1..5 x 1..5 (one full field, or 2-3 sub-fiel
         'propagate_dft on the full period, on a smaller centred window (shape), and on a window nested in it (smaller shape / '
         'prop_shape / off-centre mask box), pupil→image and image→pupil, scalar and per-axis input sampling dx, untilted / common tilt (integer + sub-pixel, incl. the displaced full period) / per-field sub-pixel tilts, Wavefront.insert with weight ≠ 1; propagate_fft full and cropped, with and without scratch; normalize_power of complex '
         'arrays and of pupil amplitudes that are then imaged. distinct = (kind, field shapes/offsets, K, L, os, windows); '
-        'non-trivial = not (square, isotropic, single field) i.e. outside what the test-suite samples')
+        'non-trivial = not (square, isotropic, single field) i.e. outside what the test-suite samples A ≈5 % sample (search tier: a leading block of 150 + padded FFT grids of 2048², 4096×1024, 1024×4100 checked by their totals) comes from an extremes stream: normalize_power targets within 1e-7 … 3e-5 relative or 1e-8 absolute of the present power at amplitude scales 1e-9 … 1e3, field amplitudes at 1e-9 / 1e9, wavelengths / distances / pixel sizes from 1e-9 to 1e6 with near-equal per-axis dx, 33–47 fields per wavefront; the quick tier runs one 4096×1024 FFT grid; all tolerances are relative to Σ|f_k|² resp. the target power.')
 TRUSTED = ['np.fft.fft2(norm="ortho") is the unitary DFT with origin at index 0; np.fft.fftshift / ifftshift follow their documented '
            'index maps (modelled in Model/Energy.lean, observed through the correspondence)',
            'np.dot / np.exp / np.abs / np.sum as written in the model; Wavefront.intensity merges coincident output fields (C06)']
@@ -146,9 +146,68 @@ def _case(rng, kmax):
         c['scratch'] = [int(rng.integers(0, 4)), int(rng.integers(0, 4))] if rng.integers(0, 3) == 0 else None
     return c
 
+def _big_fft(rng, grid):
+    """propagate_fft on a padded grid of millions of samples (summary only: Σ intensity = Σ|field|²)"""
+    m, n = int(rng.integers(2, 5)), int(rng.integers(2, 5))
+    re, im = _cdata(rng, m * n)
+    return {'kind': 'fft', 'wshape': [m, n], 'os': 1, 'full': list(grid), 'phys': {'wl': 1e-6, 'z': 2.0, 'dx': 1e-3},
+            'fields': [{'shape': [m, n], 'off': [0, 0], 're': re, 'im': im}], 'crop': None, 'scratch': None, 'summary': True}
+
+def _extreme(rng, kmax):
+    """the extremes stream: what a small random sample never reaches — targets within 1e-5 / 1e-8 of the current power, amplitudes and
+    physical units from 1e-9 to 1e9, more than 32 fields, near-equal per-axis sampling"""
+    t = int(rng.integers(0, 6))
+    c = _case(rng, kmax)
+    if t in (0, 1) or c['kind'] == 'norm':
+        # normalize_power with the target (almost) equal to the present power, at every amplitude scale
+        m, n = c['wshape']
+        k = [1.0, 1e-5, 1e-9, 1e3, 3e-5][int(rng.integers(0, 5))]
+        amp = rng.uniform(0.1, 2.0, m * n) * k
+        cplx = bool(rng.integers(0, 2))
+        im = rng.normal(size=m * n) * k if cplx else None
+        total = float(np.sum(amp ** 2) + (np.sum(im ** 2) if cplx else 0.0))
+        d = [1e-6, -8e-6, 1e-7, 3e-5, 0.5, 0.0][int(rng.integers(0, 6))]
+        power = total * (1 + d)
+        if k <= 3e-5 and rng.integers(0, 2): power = total + float([5e-9, 9e-9, 2e-9][int(rng.integers(0, 3))])     # within 1e-8 absolute
+        return {'kind': 'norm', 'wshape': [m, n], 'os': c['os'], 'full': c['full'], 'phys': c['phys'], 'amp': [float(x) for x in amp],
+                'amp_im': [float(x) for x in im] if cplx else None, 'opd': [float(x) for x in rng.normal(size=m * n) * 1e-7],
+                'power': float(power), 'via': 'fft' if rng.integers(0, 2) else 'dft'}
+    if t == 2:      # amplitudes at 1e-9 / 1e9
+        k = [1e-9, 1e9, 1e-6][int(rng.integers(0, 3))]
+        for f in c['fields']: f['re'] = [x * k for x in f['re']]; f['im'] = [x * k for x in f['im']]
+        return c
+    if t == 3:      # physical units from nanometres to kilometres; near-equal per-axis input sampling
+        dx = float([1e-9, 1e-6, 1.0, 1e3][int(rng.integers(0, 4))])
+        c['phys'] = {'wl': float([1e-9, 5e-7, 1e-3, 0.21][int(rng.integers(0, 4))]), 'z': float([1e-3, 1.0, 1e6][int(rng.integers(0, 3))]),
+                     'dx': [dx, dx * (1 + [1e-9, 1e-6, 1e-3][int(rng.integers(0, 3))])] if rng.integers(0, 2) else dx}
+        return c
+    if t == 4 and c['kind'] in ('dft', 'fft'):      # more than 32 fields (segments) on one wavefront
+        m, n = 6, 8
+        c['wshape'] = [m, n]; os_ = c['os']
+        c['full'] = [max(c['full'][0], -(-m // os_)), max(c['full'][1], -(-n // os_))]
+        fs = []
+        for _ in range(int(rng.integers(33, 48))):
+            a, b = (1, 2) if rng.integers(0, 2) else (2, 1)
+            r0 = int(rng.integers(0, m - a + 1)); c0 = int(rng.integers(0, n - b + 1))
+            re, im = _cdata(rng, a * b)
+            fs.append({'shape': [a, b], 'off': [r0 + a // 2 - m // 2, c0 + b // 2 - n // 2], 're': re, 'im': im})
+        c['fields'] = fs
+        if c['kind'] == 'dft':
+            c.pop('tilt', None); c['w2'] = list(c['full']); c['w1'] = {'how': 'shape', 'shape': [max(1, c['full'][0] - 1), c['full'][1]]}
+        return c
+    return c
+
 def generate(rng, tier):
-    n, kmax = {'quick': (200, 10), 'thorough': (3000, 16), 'search': (600, 10)}[tier]
-    return [_case(rng, kmax) for _ in range(n)]
+    n, kmax = {'quick': (200, 10), 'thorough': (3000, 16), 'search': (350, 10)}[tier]
+    out = []
+    if tier == 'search':                 # only run once a tie is already broken: the nasty inputs first
+        out += [_extreme(rng, kmax) for _ in range(150)]
+        out += [_big_fft(rng, g) for g in ((2048, 2048), (4096, 1024), (1024, 4100))]
+    for i in range(n):
+        out.append(_extreme(rng, kmax) if (tier != 'search' and i % 20 == 7) else _case(rng, kmax))
+    if tier == 'quick': out.append(_big_fft(rng, (4096, 1024)))
+    if tier == 'thorough': out += [_extreme(rng, kmax) for _ in range(150)] + [_big_fft(rng, g) for g in ((2048, 2048), (4096, 1024))]
+    return out
 
 def signature(c):
     base = f"{c['kind']} {c['wshape']} os={c['os']} full={c['full']}"
@@ -177,6 +236,8 @@ def tags(c):
         if c['crop']: t.append('fft:crop')
         if c['scratch']: t.append('fft:scratch')
     if c['kind'] == 'norm': t.append('norm:' + ('complex' if c['amp_im'] is not None else 'pupil-' + c['via']))
+    if c.get('summary'): t.append('fft-grid>=2048^2')
+    if c['kind'] != 'norm' and len(c['fields']) > 32: t.append('fields>32')
     return t
 
 
@@ -212,8 +273,10 @@ def _wavefront(c):
         w.data.append(Field(data=_fdata(f), pixelscale=dx, offset=list(f['off']), tilt=tilt))
     return w
 
-def _I(w):
+def _I(w, summary=False):
     a = np.asarray(w.intensity, dtype=float)
+    if summary:      # big grids: only what the energy statement needs
+        return {'shape': list(a.shape), 'sum': float(a.sum()), 'min': float(a.min()) if a.size else 0.0, 'finite': bool(np.all(np.isfinite(a)))}
     return {'shape': list(a.shape), 'v': [float(x) for x in a.ravel()]}
 
 def impl(c):
@@ -234,9 +297,10 @@ def impl(c):
             w1 = lentil.propagate_dft(_wavefront(c), pixelscale=du, shape=tuple(c['w2']), mask=mask, oversample=os_)
         res = {'full': _I(full), 'w2': _I(w2), 'w1': _I(w1)}
         if 'weight' in c:
-            acc = np.full(tuple(np.asarray(full.shape)), 0.25)
+            base = 0.25 * float(np.max(full.intensity)) if np.size(full.intensity) else 0.25       # a non-empty accumulator
+            acc = np.full(tuple(np.asarray(full.shape)), base)
             got = full.insert(acc, weight=c['weight'])
-            res['weighted'] = {'shape': list(got.shape), 'v': [float(x) for x in (np.asarray(got) - 0.25).ravel()]}
+            res['weighted'] = {'shape': list(got.shape), 'v': [float(x) for x in (np.asarray(got) - base).ravel()], 'base': base}
         if c.get('tilt', {}).get('kind') == 'common':
             mg = _margin(c)
             big = lentil.propagate_dft(_wavefront(c), pixelscale=du, shape=(c['full'][0] + mg[0], c['full'][1] + mg[1]),
@@ -249,6 +313,7 @@ def impl(c):
         if c['scratch'] is not None:
             kw['scratch'] = np.full((K + c['scratch'][0], L + c['scratch'][1]), 3.0 + 1.0j, dtype=complex)
         full = lentil.propagate_fft(_wavefront(c), pixelscale=du, oversample=os_, **kw)
+        if c.get('summary'): return {'full': _I(full, True)}
         res = {'full': _I(full)}
         if c['crop']:
             res['crop'] = _I(lentil.propagate_fft(_wavefront(c), pixelscale=du, shape=tuple(c['crop']), oversample=os_, **kw))
@@ -308,6 +373,7 @@ def _boxes(c):
     return out
 
 def requests(c, io):
+    if c.get('summary'): return []          # too large for the interpreted model: oracle only
     os_ = c['os']
     K, L = c['full'][0] * os_, c['full'][1] * os_
     if c['kind'] == 'dft':
@@ -331,14 +397,20 @@ def _power(c):
         cv[r0:r0 + a, c0:c0 + b] += _fdata(f)
     return float(np.sum(np.abs(cv) ** 2))
 
+def _scale(c):
+    """Σ_k Σ|f_k|²: the magnitude rounding errors scale with (tolerances are relative to it: nano- and giga-scale amplitudes
+    are judged alike)"""
+    return max(float(sum(np.sum(np.abs(_fdata(f)) ** 2) for f in c['fields'])), 1e-300)
+
 def _arr(d): return np.array(d['v'], dtype=float).reshape(d['shape'])
 def _marr(d): return np.array([bitsf(x) for x in d['v']], dtype=float).reshape(d['shape'])
 
 def compare(c, io, mo):
+    if c.get('summary'): return None
     for m in mo:
         if not m.get('ok'): return f"model refused: {m.get('err')}"
     if c['kind'] == 'dft':
-        tol = TOL * (1 + _power(c))
+        tol = TOL * _scale(c)
         it = iter(mo)
         for (name, S, b) in _boxes(c):
             got = _arr(io[name])
@@ -349,7 +421,7 @@ def compare(c, io, mo):
             if not d <= tol: return f'{name}: max |impl - model| intensity = {d:.3e} > {tol:.1e}'
         return None
     if c['kind'] == 'fft':
-        tol = TOL * (1 + _power(c))
+        tol = TOL * _scale(c)
         full = _marr(mo[0]['I']); got = _arr(io['full'])
         if got.shape != full.shape: return f'fft full: shape {got.shape} vs model {full.shape}'
         d = float(np.max(np.abs(got - full)))
@@ -364,7 +436,7 @@ def compare(c, io, mo):
     a = np.array(io['a']['re']) + 1j * np.array(io['a']['im'])
     m = mo[0]['a']; b = np.array([bitsf(x) for x in m['re']]) + 1j * np.array([bitsf(x) for x in m['im']])
     d = float(np.max(np.abs(a - b)))
-    tol = TOL * (1 + np.sqrt(c['power']))
+    tol = TOL * max(float(np.max(np.abs(a))), float(np.max(np.abs(b))), 1e-300)
     return None if d <= tol else f'normalize_power: max |impl - model| = {d:.3e} > {tol:.1e}'
 
 
@@ -373,13 +445,19 @@ def oracle(c, io):
     if c['kind'] == 'norm':
         a = np.array(io['a']['re']) + 1j * np.array(io['a']['im']); p = c['power']
         pw = float(np.sum(np.abs(a) ** 2))
-        if not abs(pw - p) <= TOL * (1 + p): return f'normalize_power(…, {p}) has power {pw}'
+        if not abs(pw - p) <= TOL * p: return f'normalize_power(…, {p!r}) has power {pw!r} (input power {float(np.sum(np.array(c["amp"]) ** 2 + (np.array(c["amp_im"]) ** 2 if c["amp_im"] is not None else 0)))!r})'
         if 'image' in io:
             I = _arr(io['image'])
             if I.size and I.min() < 0: return f'negative intensity {I.min()}'
-            if not abs(I.sum() - p) <= TOL * (1 + p): return f"normalised pupil (power {p}) images to total {I.sum()} via {c['via']}"
+            if not abs(I.sum() - p) <= TOL * p: return f"normalised pupil (power {p}) images to total {I.sum()} via {c['via']}"
         return None
-    P = _power(c); tol = TOL * (1 + P)
+    P = _power(c); tol = TOL * _scale(c)
+    if c.get('summary'):
+        d = io['full']
+        if not d['finite'] or d['min'] < 0: return f"fft grid {d['shape']}: negative or non-finite intensity"
+        if not abs(d['sum'] - P) <= tol:
+            return f"fft full period {d['shape']} ({d['shape'][0] * d['shape'][1]} samples): Σ intensity = {d['sum']!r} but Σ|field|² = {P!r}"
+        return None
     for k, d in io.items():
         I = _arr(d)
         if I.size and I.min() < 0: return f'{k}: negative intensity {I.min()}'
@@ -395,7 +473,7 @@ def oracle(c, io):
         if not abs(e - P) <= tol: return f"tilted field (shift {c['tilt']['shift']}): Σ intensity over the displaced period = {e!r} but Σ|field|² = {P!r}"
     if 'weighted' in io:
         d = float(np.max(np.abs(_arr(io['weighted']) - c['weight'] * full)))
-        if not d <= tol * max(1.0, c['weight']): return f"Wavefront.insert(weight={c['weight']}) differs from weight·intensity by {d:.3e}"
+        if not d <= tol * max(1.0, c['weight']) + 1e-14 * io['weighted'].get('base', 0.25) * max(1.0, c['weight']): return f"Wavefront.insert(weight={c['weight']}) differs from weight·intensity by {d:.3e}"
     if c['kind'] == 'dft':
         e2, e1 = _arr(io['w2']).sum(), _arr(io['w1']).sum()
         if not (e1 <= e2 + tol and e2 <= P + tol): return f'window energies not monotone: E(W1)={e1}, E(W2)={e2}, input power={P}'
